@@ -42,6 +42,17 @@ def cases(rng, tier, Case):
         for d in families(rng, nest, big):
             for cfg in ("CsW",) + (("CsWS", mdgen.gen_cfg(rng)) if big else ()):
                 res.append(Case("parse %s %d TW %s" % (cfg, nest, hx(d)), "family", {"cfg": cfg, "nest": nest, "src": hx(d)}, compare=len(d) < 400))
+        # containers other than links: the generic pair with nested inline parsing (distinct run lengths nest)
+        for d in (nest + 2, 3 * nest + 5, 60):
+            inner = "x"
+            for i in range(1, d + 1):
+                inner = "%" * i + " " + inner + " " + "%" * i
+            outer = "a"
+            for i in range(d, 0, -1):
+                outer = "%" * i + " " + outer + " " + "%" * i
+            for doc in (inner, outer, "![" * 3 + outer + "](u)" * 3, "*" + outer + "*"):
+                for cfg in ("8Cs", "Cs8", "nebp8"):
+                    res.append(Case("parse %s %d TW %s" % (cfg, nest, hx(doc)), "family", {"cfg": cfg, "nest": nest, "src": hx(doc)}, compare=len(doc) < 400))
     n = 300 if tier == "quick" else 20000
     for _ in range(n):
         d = mdgen.clean_utf8(mdgen.gen_doc(rng))
